@@ -510,47 +510,108 @@ def check_c12(tier, seed):
 
 
 def client_order_half(ck, seed):
-    """client half of C12 (also an interface fact of C01): ClockErrorBound::now() reads REALTIME first, the monotonic clock second,
-    and centres the interval on that first reading"""
+    """client half of C12 (also an interface fact of C01), stated on what the answer is computed from rather than on the order of the
+    system calls: on every path of ClockErrorBound::now() that returns an interval, the interval is centred on one of the
+    CLOCK_REALTIME readings of that path (index k), and every monotonic reading the answer depends on was taken AFTER that reading -
+    or is, by the path condition, interchangeable with one that was (a tick detector that compares an earlier sample with a later one
+    and found them equal).  Then any delay between the steps can only age the record further."""
     from .client_now import load_shm_program, NowModel, ts_ns
     prog2, w2 = load_shm_program()
-    nm = NowModel(prog2)
+    nm = NowModel(prog2, by_clock_id=False)
     outs = nm.run()
     pr2 = Prover(seed); pr2.add(nm.domain()); pr2.add(nm.ex.side)
-    n_ = nm.ns()
-    for i, o in enumerate(outs):
-        evs = [e for e in o.state.trace if e.kind == 'clock_gettime']
-        ids = [z3.simplify(e.args[0]) for e in evs]
-        good = len(ids) >= 1 and z3.is_int_value(ids[0]) and ids[0].as_long() == 0 and (len(ids) < 2 or (z3.is_int_value(ids[1]) and ids[1].as_long() == 6))
-        pr2.prove('client path %d: CLOCK_REALTIME is read first, the monotonic clock second (reads on this path: %d)' % (i, len(ids)), o.state.pcond(), z3.BoolVal(bool(good)))
-        rv = o.value
-        if 'Ok' in rv.p and 'Err' not in rv.p:
-            tup = rv.p['Ok'].f[0]
-            e_ns, e = ts_ns(tup.f[0]); l_ns, l = ts_ns(tup.f[1])
-            # data flow: the interval is centred on the FIRST reading; its width depends on the SECOND reading only through the age
-            pr2.prove('client path %d: the interval is centred on the first (realtime) reading' % i, o.state.pcond(), e_ns + l_ns == 2 * n_['real'])
-    ck.absorb(pr2, 'client: ')
-    if pr2.failed:
-        # replay natively under a virtual clock in which every read takes time (2 ms, then 30 s per read): the first two reads must be
-        # REALTIME then the monotonic clock, and the interval must be centred on that first realtime reading
-        rp = common.Replay('debug')
-        found = False
-        for adv in (2_000_000, 30 * NS, 0):
-            cmd = 'now 0 0 1000 0 10000 1000 1 100 0 2 0 %d' % adv
-            out = rp.ask(cmd)
-            reads = out.split('reads=')[-1] if 'reads=' in out else ''
-            rl = reads.split(',')
-            if not out.startswith('ok'):
+    base = list(nm.domain()) + list(nm.ex.side)
+
+    def valid(pc, claim):
+        sv = z3.Solver(); sv.set('timeout', 60000); sv.add(base); sv.add(pc, z3.Not(claim))
+        return sv.check() == z3.unsat
+
+    def vars_of(e, acc):
+        seen = set(); stack = [e]
+        while stack:
+            x = stack.pop()
+            if x.get_id() in seen:
                 continue
-            t = out.split()
-            e_ns = int(t[1]) * NS + int(t[2]); l_ns = int(t[3]) * NS + int(t[4])
-            if rl[:2] != ['0', '6']:
-                ck.violation('client-read-order', 'ClockErrorBound::now() read the clocks in the order %s (expected CLOCK_REALTIME=0 then CLOCK_MONOTONIC_COARSE=6)' % reads, {'cmd': cmd, 'native': out})
-                found = True; break
-            if e_ns + l_ns != 2 * (100 * NS):
-                ck.violation('client-read-order', 'with %d ns passing at every clock read, ClockErrorBound::now() (reads %s) returns an interval centred on %d ns, not on its first realtime reading (100 s): a delay after the monotonic read moves the centre without widening the interval'
-                             % (adv, reads, (e_ns + l_ns) // 2), {'cmd': cmd, 'native': out})
-                found = True; break
-        rp.close()
-        if not found:
-            ck.inconclusive.append('client-side clause failed in the encoding but the native runs are centred on the first realtime reading')
+            seen.add(x.get_id())
+            if z3.is_const(x) and x.decl().kind() == z3.Z3_OP_UNINTERPRETED:
+                acc.add(str(x))
+            stack.extend(x.children())
+        return acc
+    for i, o in enumerate(outs):
+        rv = o.value
+        if not ('Ok' in rv.p and 'Err' not in rv.p):
+            continue
+        evs = [e for e in o.state.trace if e.kind == 'clock_gettime']
+        ids = []
+        for e in evs:
+            x = z3.simplify(e.args[0])
+            ids.append(x.as_long() if z3.is_int_value(x) else None)
+        pc = o.state.pcond()
+        tup = rv.p['Ok'].f[0]
+        e_ns, e = ts_ns(tup.f[0]); l_ns, l = ts_ns(tup.f[1])
+        stt = tup.f[2].disc() if hasattr(tup.f[2], 'disc') else z3.IntVal(0)
+        outs_terms = [e_ns, l_ns, stt]
+        rd = lambda j: nm.readings[j].f[0] * NS + nm.readings[j].f[1]
+        k = None
+        for j, cid in enumerate(ids):
+            if cid == 0 and valid(pc, e_ns + l_ns == 2 * rd(j)):
+                k = j; break
+        name = 'client path %d (clock reads %s): ' % (i, ','.join(str(x) for x in ids))
+        if k is None:
+            pr2.prove(name + 'the interval is centred on a CLOCK_REALTIME reading of the call', pc, z3.BoolVal(False))
+            continue
+        pr2.prove(name + 'the interval is centred on its CLOCK_REALTIME reading #%d' % k, pc, e_ns + l_ns == 2 * rd(k))
+        used = set()
+        for t in outs_terms:
+            vars_of(t, used)
+        dep = [j for j, cid in enumerate(ids) if cid != 0 and (str(nm.readings[j].f[0]) in used or str(nm.readings[j].f[1]) in used)]
+        ok = True; how = []
+        for d in dep:
+            if d > k:
+                continue
+            found = None
+            for u in range(k + 1, len(ids)):
+                if ids[u] != 0 and ids[u] == ids[d]:
+                    sub = [(nm.readings[d].f[0], nm.readings[u].f[0]), (nm.readings[d].f[1], nm.readings[u].f[1])]
+                    same = z3.And([t == z3.substitute(t, *sub) for t in outs_terms])
+                    if valid(pc, same):
+                        found = u; break
+            if found is None:
+                ok = False; how.append('reading #%d (taken before the realtime reading #%d) decides the answer' % (d, k))
+            else:
+                how.append('#%d == #%d on this path' % (d, found))
+        pr2.prove(name + 'every monotonic reading the answer depends on (%s) was taken after the realtime reading #%d, or equals one that was %s' % (dep, k, how),
+                  pc, z3.BoolVal(ok))
+    ck.absorb(pr2, 'client: ')
+    ck.cov['client_paths'] = len(outs)
+    # native: a virtual clock in which every read takes time (2 ms, 30 s, 7 s, 0): whatever the order of the reads, the interval must be
+    # centred on one of the realtime readings and at least as wide as the record aged up to THAT instant requires
+    rp = common.Replay('debug')
+    found = False
+    as_of, bound, drift, real0, mono0 = 0, 10000, 1000, 100 * NS, 2 * NS
+    for adv in (2_000_000, 30 * NS, 7 * NS, 0):
+        cmd = 'now 0 0 1000 0 %d %d 1 100 0 2 0 %d' % (bound, drift, adv)
+        out = rp.ask(cmd)
+        ck.cov['evaluations'] += 1
+        reads = out.split('reads=')[-1] if 'reads=' in out else ''
+        rl = reads.split(',')
+        if not out.startswith('ok'):
+            continue
+        t = out.split()
+        e_ns = int(t[1]) * NS + int(t[2]); l_ns = int(t[3]) * NS + int(t[4])
+        centre2 = e_ns + l_ns
+        ks = [j for j, c in enumerate(rl) if c == '0' and 2 * (real0 + j * adv) == centre2]
+        if not ks:
+            ck.violation('client-read-order', 'with %d ns passing at every clock read, ClockErrorBound::now() (reads %s) returns an interval centred on %d ns, which is none of its realtime readings'
+                         % (adv, reads, centre2 // 2), {'cmd': cmd, 'native': out})
+            found = True; break
+        kk = ks[0]
+        need = bound + (drift * (mono0 + kk * adv - as_of)) // NS
+        hw = (l_ns - e_ns) // 2
+        if hw < need - 1:
+            ck.violation('client-read-order', 'with %d ns passing at every clock read, ClockErrorBound::now() (reads %s) centres the interval on its realtime reading #%d but ages the record only up to a monotonic reading taken before it: half-width %d ns < %d ns (bound + drift up to the instant of that realtime reading); the delay shrinks the interval instead of widening it'
+                         % (adv, reads, kk, hw, need), {'cmd': cmd, 'native': out})
+            found = True; break
+    rp.close()
+    if pr2.failed and not found:
+        ck.inconclusive.append('client-side clause failed in the encoding but the native runs (advancing virtual clock) are centred on a realtime reading and wide enough')
